@@ -34,6 +34,7 @@ import (
 	"k8s.io/apimachinery/pkg/api/errors"
 	metav1 "k8s.io/apimachinery/pkg/apis/meta/v1"
 	"k8s.io/apimachinery/pkg/apis/meta/v1/unstructured"
+	"k8s.io/apimachinery/pkg/runtime/schema"
 	"k8s.io/apimachinery/pkg/types"
 	"sigs.k8s.io/controller-runtime/pkg/client"
 	"sigs.k8s.io/controller-runtime/pkg/client/fake"
@@ -44,9 +45,15 @@ type cuHistEvent struct {
 	Ref      *cuRefIn      `json:"ref"`
 	Strategy *cuStrategyIn `json:"strategy"`
 	Fail     *int          `json:"fail"`
+	// the refused writes are refused with a 409 Conflict (a concurrent writer) instead of a generic error; the provider
+	// does not retry conflicts, so the model treats both alike
+	Conflict bool          `json:"conflict"`
 	I        int           `json:"i"`
 	Jx       int           `json:"j"`
 	Obj      *cuObjIn      `json:"obj"`
+	// race: EnsureRoutes whose fail-th write (0-based) meets a 409 Conflict BECAUSE the user replaced that very object
+	// between the provider's read and this write: objs[i] is the manifest the user writes if the object is ref i
+	Objs []*cuObjIn `json:"objs"`
 }
 
 type cuHistIn struct {
@@ -123,10 +130,13 @@ func cuRunHist(raw json.RawMessage) interface{} {
 			panic(fmt.Sprintf("create %s: %v", s.name, err))
 		}
 	}
-	faulty := func(fail *int) client.Client {
+	faulty := func(fail *int, conflict bool) client.Client {
 		lc := NewLogClient(cli)
 		if fail != nil {
 			lc.FailAt = *fail
+			if conflict {
+				lc.FailErr = errors.NewConflict(schema.GroupResource{Resource: "injected"}, "x", fmt.Errorf("injected conflict"))
+			}
 		}
 		return lc
 	}
@@ -174,10 +184,26 @@ func cuRunHist(raw json.RawMessage) interface{} {
 				active = append(active, parked[ev.Jx])
 				parked = append(append([]*cuHistSlot{}, parked[:ev.Jx]...), parked[ev.Jx+1:]...)
 			}
-		case "step":
+		case "step", "race":
 			strategy := ev.Strategy.build()
 			c := conf()
-			ctrl, _ := custom.NewCustomController(faulty(ev.Fail), c)
+			fcli := faulty(ev.Fail, ev.Conflict)
+			if ev.Ev == "race" {
+				lc := NewLogClient(cli)
+				lc.ConflictAtWrite = *ev.Fail + 1
+				lc.OnConflict = func(rec WriteRec) {
+					for i, s := range active {
+						if rec.Key == cuNs+"/"+s.name && rec.Kind == s.kind && i < len(ev.Objs) {
+							remove(s)
+							create(s, ev.Objs[i])
+							return
+						}
+					}
+					panic("race: conflicting write to an object that is no active ref: " + rec.Kind + " " + rec.Key)
+				}
+				fcli = lc
+			}
+			ctrl, _ := custom.NewCustomController(fcli, c)
 			done, err := ctrl.EnsureRoutes(ctx, strategy)
 			rec["res"] = cuRes(done, err)
 			objs := snapshot(active)
@@ -205,7 +231,7 @@ func cuRunHist(raw json.RawMessage) interface{} {
 				rec["fresh"] = fresh
 			}
 		case "fin":
-			ctrl, _ := custom.NewCustomController(faulty(ev.Fail), conf())
+			ctrl, _ := custom.NewCustomController(faulty(ev.Fail, ev.Conflict), conf())
 			mod, err := ctrl.Finalise(ctx)
 			rec["res"] = cuRes(mod, err)
 		default:
@@ -314,7 +340,7 @@ func (g cuGen) hist() interface{} {
 		add()
 	}
 	step := func(fail interface{}) J {
-		return J{"ev": "step", "fail": fail, "strategy": g.strategy()}
+		return J{"ev": "step", "fail": fail, "conflict": fail != nil && g.p(50), "strategy": g.strategy()}
 	}
 	var lastStep J
 	for i, k := 0, 2+g.n(8); i < k; i++ {
@@ -326,7 +352,7 @@ func (g cuGen) hist() interface{} {
 			}
 			var e J
 			if lastStep != nil && g.p(20) {
-				e = J{"ev": "step", "fail": fail, "strategy": lastStep["strategy"]}
+				e = J{"ev": "step", "fail": fail, "conflict": fail != nil && g.p(50), "strategy": lastStep["strategy"]}
 			} else {
 				e = step(fail)
 			}
@@ -335,12 +361,30 @@ func (g cuGen) hist() interface{} {
 			if fail != nil && g.p(60) {
 				events = append(events, J{"ev": "step", "fail": nil, "strategy": e["strategy"]})
 			}
-		case r < 62: // Finalise, often dying part-way; then a retry or another EnsureRoutes
+		case r < 55 && len(active) > 0: // EnsureRoutes racing with the user: one write meets a conflict because the user replaced that object
+			objs := []interface{}{}
+			for i := range active {
+				m := active[i].manifest
+				if g.p(70) {
+					m = g.goodManifest(active[i].ref, stable, canary)
+				}
+				objs = append(objs, m)
+			}
+			st := lastStep
+			if st == nil || g.p(70) {
+				st = step(nil)
+			}
+			e := J{"ev": "race", "fail": g.n(len(active) + 1), "objs": objs, "strategy": st["strategy"]}
+			events = append(events, e)
+			if g.p(70) { // the retry after the conflict
+				events = append(events, J{"ev": "step", "fail": nil, "strategy": e["strategy"]})
+			}
+		case r < 65: // Finalise, often dying part-way; then a retry or another EnsureRoutes
 			var fail interface{}
 			if g.p(50) && len(active) > 0 {
 				fail = g.n(len(active))
 			}
-			events = append(events, J{"ev": "fin", "fail": fail})
+			events = append(events, J{"ev": "fin", "fail": fail, "conflict": fail != nil && g.p(50)})
 			if fail != nil {
 				switch g.n(5) {
 				case 0, 1:
